@@ -22,7 +22,7 @@ BUDGET = {"quick": 3000, "thorough": 40000}
 MIN_NONTRIVIAL = {"quick": 300, "thorough": 3000}
 REQUIRED_FUNCTIONS = ["listener.py:BlackbirdListener.exitArrayvar", "auxiliary.py:_expression", "program.py:BlackbirdProgram.serialize", "listener.py:is_ptype"]
 FUNCTIONS = REQUIRED_FUNCTIONS
-REQUIRED_TAGS = ["tdm", "control", "parray:int", "parray:float", "parray:complex", "parray:keyword", "parray:in-loop", "with:template-parameter", "with:ordinary-array", "with:scalar"]
+REQUIRED_TAGS = ["tdm", "control", "parray:int", "parray:float", "parray:complex", "parray:keyword", "parray:in-loop", "with:template-parameter", "with:ordinary-array", "with:scalar", "parray:long"]
 ASSUMPTIONS = ["tdm rule of the reference: an array named p<digits> used as a whole argument denotes its name (DESIGN Appendix A rule 12)"]
 
 
@@ -40,7 +40,20 @@ def build(rng, g, tdm=True):
         vt = rng.choice(["int", "float", "float", "complex"])
         rows = rng.choice([1, 1, 1, 2, 3])
         cols = rng.randint(1, 6)
-        t = G.decl_array(vartype=vt, rows=rows, cols=cols, name=pn, param_p=0.0)
+        if rng.random() < 0.12:
+            # a long p-array written with full-precision values
+            rows, cols = 1, rng.choice([12, 20, 40])
+            els = [repr(rng.uniform(-3, 3)) if vt != "int" else str(rng.randint(0, 10 ** 9)) for _ in range(cols)]
+            if vt == "complex":
+                els = ["%r%+rj" % (rng.uniform(-3, 3), rng.uniform(-3, 3)) for _ in range(cols)]
+            t = "%s array %s =\n    %s" % (vt, pn, ", ".join(els))
+            if G.feed(t) and pn in G.it.env:
+                G.arrays[pn] = (vt, rows, cols, False)
+                tags.add("parray:long")
+            else:
+                t = None
+        else:
+            t = G.decl_array(vartype=vt, rows=rows, cols=cols, name=pn, param_p=0.0)
         if t:
             decls.append(t)
             tags.add("parray:" + vt)
@@ -50,7 +63,7 @@ def build(rng, g, tdm=True):
             decls.append(t)
             tags.add("with:scalar")
     for _ in range(rng.choice([0, 0, 1, 2])):
-        t = G.decl_array(name=rng.choice([None, "P0", "pa", "q", "p_1", "pp1"]) if rng.random() < 0.5 else None, param_p=0.0)
+        t = G.decl_array(name=rng.choice([None, "P0", "pa", "q", "p_1", "pp1", "p0_left", "p1a", "p12x", "p3_", "p", "p0p"]) if rng.random() < 0.5 else None, param_p=0.0)
         if t:
             decls.append(t)
             tags.add("with:ordinary-array")
